@@ -47,7 +47,11 @@ type Srv struct {
 	gs   *grpc.Server
 	mu   sync.Mutex
 	rec  []Call
+	n    int64
 }
+
+// Count is the number of unary calls handled so far.
+func (s *Srv) Count() int64 { s.mu.Lock(); defer s.mu.Unlock(); return s.n }
 
 // transport-level keys that grpc-go adds by itself; everything else is application metadata.
 func transportKey(k string) bool {
@@ -162,6 +166,7 @@ func (s *Srv) intercept(ctx context.Context, req interface{}, info *grpc.UnarySe
 	c.Status = uint32(status.Code(err))
 	s.mu.Lock()
 	s.rec = append(s.rec, c)
+	s.n++
 	s.mu.Unlock()
 	return resp, err
 }
